@@ -56,7 +56,9 @@ def _run_driver(outdir, features=None):
     """Run `cargo +nightly check --workspace` with the driver as workspace wrapper.
     Returns (list of rustc diagnostics as dicts, wall seconds)."""
     ensure_driver()
-    target = os.path.join(CACHE, "target" + ("-" + features.replace("/", "_") if features else ""))
+    # VERIF_FACTS_LANE: maintenance runs that analyse many trees (tools_seeds.py --lanes) extract in parallel, one cargo target directory per lane
+    lane = os.environ.get("VERIF_FACTS_LANE", "")
+    target = os.path.join(CACHE, "target" + ("-" + features.replace("/", "_") if features else "") + ("-lane" + lane if lane else ""))
     os.makedirs(target, exist_ok=True)
     # cargo's freshness cache would skip the wrapper for unchanged members: drop their fingerprints
     for fp in glob.glob(os.path.join(target, "debug", ".fingerprint", "*")):
@@ -107,7 +109,7 @@ def extract(features=None, force=False):
         drv = hashlib.sha256(fh.read()).hexdigest()[:12]
     key = tree_hash((features or "") + drv)
     d = os.path.join(CACHE, "facts-" + key)
-    lock = open(os.path.join(CACHE, "lock"), "w")
+    lock = open(os.path.join(CACHE, "lock" + os.environ.get("VERIF_FACTS_LANE", "")), "w")
     fcntl.flock(lock, fcntl.LOCK_EX)
     try:
         if os.path.exists(os.path.join(d, "DONE")) and not force:
